@@ -133,6 +133,13 @@ def import_closure(roots: list[Path]) -> list[Path]:
     return list(seen)
 
 
+def leanchecker(prop: str) -> tuple[bool, str]:
+    """thorough tier: the toolchain's independent re-checker replays the compiled property module
+    (and everything it imports) through the kernel"""
+    r = _run(["lake", "env", "leanchecker", f"GEVerif.Props.{prop}"], LEAN, timeout=1800)
+    return r.returncode == 0, (r.stdout + r.stderr)[-800:]
+
+
 def audit(prop: str) -> dict:
     """#print axioms for every `theorem Cxx_*` in Props/Cxx.lean; forbidden-token grep."""
     pfile = LEAN / "GEVerif" / "Props" / f"{prop}.lean"
@@ -417,6 +424,11 @@ def run_check(prop: str, tier: str, seed: int, module) -> int:
     try:
         build_s = build_lean(prop)
         au = audit(prop)
+        if tier == "thorough":
+            ok_lc, out_lc = leanchecker(prop)
+            au["leanchecker"] = "ok" if ok_lc else "FAILED: " + out_lc
+            if not ok_lc:
+                au["bad"].append(("leanchecker", out_lc[-300:]))
         module.run(h)
         h.flush()
         # a broken correspondence with no failing input yet: widen the search
@@ -499,6 +511,7 @@ def run_check(prop: str, tier: str, seed: int, module) -> int:
             "checker_cmd": f"cd lean && lake build && lake env lean .lake/audit/Audit_{prop}.lean  (#print axioms on: {', '.join(au['theorems'])})",
             "trusted_base": TRUSTED_BASE + getattr(module, "TRUSTED_EXTRA", []),
             "theorems": [{"name": n, "axioms": a} for n, a in au["ok"]],
+            "leanchecker": au.get("leanchecker", "not run (thorough tier only)"),
             "evaluations": h.evaluations,
             "distinct_nontrivial": len(h.nontrivial),
             "rule": getattr(module, "RULE", ""),
